@@ -318,8 +318,13 @@ func (c *Broadcaster) Broadcast(socket *Conn) error {
 
 	atomic.AddInt64(&c.state, 1)
 	socket.writeQueue.Push(func() {
-		var err = c.writeFrame(socket, msg.frame)
-		socket.emitError(false, err)
+		if c.opcode == OpcodeCloseConnection {
+			// a broadcast Close frame has to close the connection, see closeViaWrite
+			_ = socket.closeViaWrite(c.payload)
+		} else {
+			var err = c.writeFrame(socket, msg.frame)
+			socket.emitError(false, err)
+		}
 		if atomic.AddInt64(&c.state, -1) == 0 {
 			c.doClose()
 		}
